@@ -1283,6 +1283,11 @@ where
     }
 
     fn visit_mut_stmts(&mut self, stmts: &mut Vec<Stmt>) {
+        // declarations requested outside of this list belong to an enclosing scope
+        let outer_consts = mem::take(&mut self.injecting_consts);
+        let outer_vars = mem::take(&mut self.injecting_vars);
+        let outer_slot_counter = mem::replace(&mut self.slot_counter, 1);
+
         stmts.visit_mut_children_with(self);
 
         if !self.injecting_consts.is_empty() {
@@ -1307,12 +1312,23 @@ where
                     ..Default::default()
                 }))),
             );
-            self.slot_counter = 1;
         }
+
+        self.injecting_consts = outer_consts;
+        self.injecting_vars = outer_vars;
+        self.slot_counter = outer_slot_counter;
     }
 
     fn visit_mut_arrow_expr(&mut self, arrow_expr: &mut ArrowExpr) {
-        arrow_expr.visit_mut_children_with(self);
+        // parameters are evaluated outside of the body:
+        // declarations they request belong to an enclosing scope
+        arrow_expr.params.visit_mut_with(self);
+
+        let outer_consts = mem::take(&mut self.injecting_consts);
+        let outer_vars = mem::take(&mut self.injecting_vars);
+        let outer_slot_counter = mem::replace(&mut self.slot_counter, 1);
+
+        arrow_expr.body.visit_mut_with(self);
 
         if !self.injecting_consts.is_empty() || !self.injecting_vars.is_empty() {
             if let BlockStmtOrExpr::Expr(ret) = &*arrow_expr.body {
@@ -1334,7 +1350,6 @@ where
                         decls: mem::take(&mut self.injecting_vars),
                         ..Default::default()
                     }))));
-                    self.slot_counter = 1;
                 }
 
                 stmts.push(Stmt::Return(ReturnStmt {
@@ -1349,6 +1364,13 @@ where
                 }));
             }
         }
+
+        self.injecting_consts = outer_consts;
+        self.injecting_vars = outer_vars;
+        self.slot_counter = outer_slot_counter;
+
+        arrow_expr.type_params.visit_mut_with(self);
+        arrow_expr.return_type.visit_mut_with(self);
     }
 
     fn visit_mut_expr(&mut self, expr: &mut Expr) {
